@@ -4,6 +4,8 @@ from batches import core
 
 TRUSTED = list(core.TRUSTED) + ['encoding', 'address', 'from', 'CallFrameInstructionIter', 'next', 'lsda_encoding', 'personality_with_encoding', 'fde_address_encoding', 'is_signal_trampoline', 'instructions', 'lsda']
 VERUS_ARGS = ['--rlimit', '40']
+# CallFrameInstruction::from alone has 18 genuine failing obligations (finding F7): report all of them, not the first 3
+MULTIPLE_ERRORS = 40
 
 OWN = ['C12']
 
@@ -223,7 +225,7 @@ use crate::vspec::*;''')
     # bodies outside the subset (Option::and_then / is_some_and with closures, struct literal of the iterator with borrowed
     # parameters): read-side code of property C05; only their contracts are used here
     cie.extbody(['lsda_encoding', 'personality_with_encoding', 'fde_address_encoding', 'is_signal_trampoline', 'instructions'])
-    cie.clean(offset=False)
+    cie.clean()
     cie.insert_members('''    pub closed spec fn caf(&self) -> u64 { self.code_alignment_factor }
     pub closed spec fn daf(&self) -> i64 { self.data_alignment_factor }
     pub closed spec fn ra(&self) -> Register { self.return_address_register }
@@ -232,12 +234,15 @@ use crate::vspec::*;''')
     cie.splice('code_alignment_factor', ret='res', ensures=['res == self.caf()'])
     cie.splice('data_alignment_factor', ret='res', ensures=['res == self.daf()'])
     cie.splice('return_address_register', ret='res', ensures=['res == self.ra()'])
-    cie.insert_members('''    pub closed spec fn aug(&self) -> Option<Augmentation> { self.augmentation }
+    cie.insert_members('''    pub closed spec fn aug_lsda(&self) -> Option<constants::DwEhPe> { match self.augmentation { Some(a) => a.lsda, None => None } }
+    pub closed spec fn aug_personality(&self) -> Option<(constants::DwEhPe, Pointer)> { match self.augmentation { Some(a) => a.personality, None => None } }
+    pub closed spec fn aug_fde_enc(&self) -> Option<constants::DwEhPe> { match self.augmentation { Some(a) => a.fde_address_encoding, None => None } }
+    pub closed spec fn aug_signal(&self) -> bool { match self.augmentation { Some(a) => a.is_signal_trampoline, None => false } }
     pub uninterp spec fn insn_seq(&self) -> Seq<CallFrameInstruction<usize>>;''')
-    cie.splice('lsda_encoding', ret='res', ensures=['res == (match self.aug() { Some(a) => a.lsda, None => None })'])
-    cie.splice('personality_with_encoding', ret='res', ensures=['res == (match self.aug() { Some(a) => a.personality, None => None })'])
-    cie.splice('fde_address_encoding', ret='res', ensures=['res == (match self.aug() { Some(a) => a.fde_address_encoding, None => None })'])
-    cie.splice('is_signal_trampoline', ret='res', ensures=['res == (match self.aug() { Some(a) => a.is_signal_trampoline, None => false })'])
+    cie.splice('lsda_encoding', ret='res', ensures=['res == self.aug_lsda()'])
+    cie.splice('personality_with_encoding', ret='res', ensures=['res == self.aug_personality()'])
+    cie.splice('fde_address_encoding', ret='res', ensures=['res == self.aug_fde_enc()'])
+    cie.splice('is_signal_trampoline', ret='res', ensures=['res == self.aug_signal()'])
     cie.splice('instructions', ret='res', ensures=['res.rest() == self.insn_seq()'])
     cie.own(['C05'])
     sk.add('read::cfi', cie)
@@ -247,10 +252,10 @@ use crate::vspec::*;''')
     sk.add('read::cfi', rc.item(r'^pub struct BaseAddresses \{').clean())
     sk.add('read::cfi', rc.item(r'^struct AugmentationData \{').clean())
     sk.add('read::cfi', rc.item(r'^pub struct FrameDescriptionEntry<R, Offset').clean(offset=False, rejrec=['R', 'Offset']))
-    fde = rc.item(r'^impl<R: Reader> FrameDescriptionEntry<R> \{', label='FrameDescriptionEntry')
+    fde = rc.item(r'^impl<R: Reader> FrameDescriptionEntry<R> \{\s*pub fn offset', label='FrameDescriptionEntry')
     fde.keep_only(['cie', 'instructions', 'initial_address', 'len', 'lsda'])
     fde.extbody(['instructions', 'lsda'])
-    fde.clean(offset=False)
+    fde.clean()
     fde.insert_members('''    pub closed spec fn cie_v(&self) -> CommonInformationEntry<R> { self.cie }
     pub closed spec fn initial(&self) -> u64 { self.initial_address }
     pub closed spec fn range(&self) -> u64 { self.address_range }
